@@ -162,6 +162,7 @@ def run(ctx: Ctx):
     from . import c07
     c07.r7_2_3(ctx, ctx.func("move_mol_atom"))
     c07.r7_5(ctx, ctx.func("move_mol_atom"))
+    c07.r7_6(ctx, ctx.func("move_mol_atom"), ctx.func("find_atom_random_displ"))
 
 
 def _in_accept_branch_toplevel(L: Loop, st) -> bool:
